@@ -125,7 +125,10 @@ Req(s, r) ==
     CASE r.cmd \in OpCmds ->
             LET o == [NoOp EXCEPT !.cmd = r.cmd, !.ph = IF r.cmd = "sub" THEN "sub" ELSE "run",
                                   !.key = r.key, !.q = r.q, !.pf = r.pf, !.c = r.c,
-                                  !.base = IF IsSeq(s) THEN s.wr ELSE ZeroK]
+                                  !.base = IF IsSeq(s) THEN s.wr ELSE ZeroK,
+                                  \* requests are handled concurrently: a cancel sent earlier and not yet
+                                  \* answered may still hit this operation
+                                  !.canc = s.cred[r.id]]
                 t == [s EXCEPT !.op[r.id] = o]
             IN IF r.cmd \in WriteCmds THEN Attempt(t, r.key, r) ELSE t
       [] r.cmd = "cancel" ->
